@@ -569,6 +569,7 @@ def rw_optlib(tl):
     """R13: library idioms of `optimize` replaced by calls of trusted helpers with sequence / map level specs
     (each helper is an external_body stub listed in the evidence):
        M.entry(K).or_insert(V)                          => hm_entry_or_insert(&mut M, K, V)
+       M.entry(K).or_insert_with(Vec::new)              => hm_entry_or_new(&mut M, K)
        V.sort_unstable()                                => vec_sort_unstable(&mut V)
        io::CustomWriter::new(|_| Result::Ok(()))        => custom_writer_null()
        &mut stdin()                                     => &mut io_stdin()
@@ -586,13 +587,22 @@ def rw_optlib(tl):
     i = 0
     n = len(tl)
     while i < n:
-        # M.entry(K).or_insert(V)
-        if i + 3 < n and tl[i + 1:i + 4] == [".", "entry", "("] and (tl[i][0].isalpha() or tl[i][0] == "_"):
-            j = _close(tl, i + 3)
+        # M.entry(K).or_insert(V)   /   M.entry(K).or_insert_with(Vec::new)      (M: identifier or field path a.b)
+        if tl[i:i + 3] == [".", "entry", "("] and out and (out[-1][0].isalpha() or out[-1][0] == "_"):
+            j = _close(tl, i + 2)
+            b = len(out) - 1
+            while b >= 2 and out[b - 1] == "." and (out[b - 2][0].isalpha() or out[b - 2][0] == "_"):
+                b -= 2
+            recv = out[b:]
             if tl[j + 1:j + 4] == [".", "or_insert", "("]:
                 k = _close(tl, j + 3)
-                out += ["hm_entry_or_insert", "(", "&", "mut", tl[i], ","] + tl[i + 4:j] + [","] + tl[j + 4:k] + [")"]
+                out = out[:b] + ["hm_entry_or_insert", "(", "&", "mut"] + recv + [","] + tl[i + 3:j] + [","] + tl[j + 4:k] + [")"]
                 i = k + 1
+                cnt += 1
+                continue
+            if tl[j + 1:j + 8] == [".", "or_insert_with", "(", "Vec", "::", "new", ")"]:
+                out = out[:b] + ["hm_entry_or_new", "(", "&", "mut"] + recv + [","] + tl[i + 3:j] + [")"]
+                i = j + 8
                 cnt += 1
                 continue
         # for (I, X) in V.iter().enumerate() {
